@@ -98,15 +98,18 @@ Fixpoint map_after (r : vname -> vname) (m : vmap) (l : list node) : vmap :=
   | n :: t => map_after r (defmap r (n_outs n) ++ m)%list t
   end.
 
-(* rh renames the outputs of the node itself, rn the outputs of every node nested below it *)
-Fixpoint clone_node (rh rn : vname -> vname) (am : list (string * attrv)) (m : vmap) (n : node) {struct n} : node :=
+(* rh renames the outputs of the node itself, rn the outputs of every node nested below it, ri the inputs
+   (and initializers) of the subgraphs nested below it: `same` on the tree as read (the Cloner copies the
+   names; _inliner.rename touches node outputs only), the prefix after
+   proposed_fixes/ready/C18_01_inliner_prefixes_subgraph_inputs.diff *)
+Fixpoint clone_node (ri rh rn : vname -> vname) (am : list (string * attrv)) (m : vmap) (n : node) {struct n} : node :=
   let 'Node d o ins outs attrs subs := n in
   Node d o (map (clone_in m) ins) (map rh outs) (subst_attrs am attrs)
-       (map (fun kg => let '(k, g) := kg in (k, clone_graph rn am m g)) subs)
-with clone_graph (rn : vname -> vname) (am : list (string * attrv)) (m : vmap) (g : graph) {struct g} : graph :=
+       (map (fun kg => let '(k, g) := kg in (k, clone_graph ri rn am m g)) subs)
+with clone_graph (ri rn : vname -> vname) (am : list (string * attrv)) (m : vmap) (g : graph) {struct g} : graph :=
   let 'Graph ins inits nodes outs := g in
-  let m0 := (defmap same (ins ++ inits) ++ m)%list in
-  Graph ins inits (clone_nodes_with (fun m' n' => clone_node rn rn am m' n') rn m0 nodes)
+  let m0 := (defmap ri (ins ++ inits) ++ m)%list in
+  Graph (map ri ins) (map ri inits) (clone_nodes_with (fun m' n' => clone_node ri rn rn am m' n') rn m0 nodes)
         (map (clone_out (map_after rn m0 nodes)) outs).
 
 (* ------------------------------------------------------------------ names given by call_inline *)
@@ -145,15 +148,39 @@ Definition final_name (f : func) (s : site) (x : vname) : vname :=
 
 Definition nested_name (f : func) (s : site) (x : vname) : vname := site_prefix f s ++ x.
 
+(* two behaviours of _inliner.instantiate, probed on the real code on every run:
+   rename_sub_inputs   the inputs of cloned subgraphs get the call-site prefix (as read: false, they keep
+                       their names and can capture / repeat names of the calling graph);
+   pad_missing_actuals a formal without actual is mapped to None = omitted (as read: false, zip() leaves it
+                       without entry and the Cloner passes the formal's own name through) *)
+Record icfg := ICfg { rename_sub_inputs : bool; pad_missing_actuals : bool }.
+Definition icfg_pinned := ICfg false false.
+Definition icfg_fixed := ICfg true true.
+
+Definition pad_actuals (f : func) (acts : list (option vname)) : list (option vname) :=
+  (acts ++ repeat None (List.length (f_ins f) - List.length acts))%list.
+(* the call site as instantiate sees it *)
+Definition vsite (c : icfg) (f : func) (s : site) : site :=
+  if pad_missing_actuals c
+  then Site (s_scope s) (s_prefix s) (s_count s) (pad_actuals f (s_actuals s)) (s_attrs s) (s_outnames s)
+  else s.
+Definition sub_ren (c : icfg) (f : func) (s : site) : vname -> vname :=
+  if rename_sub_inputs c then nested_name f s else same.
+
 (* dict(zip(formal_inputs, inputs)) *)
 Definition site_map (f : func) (s : site) : vmap := combine (f_ins f) (s_actuals s).
 
-Definition inline_nodes (f : func) (s : site) : list node :=
-  clone_nodes_with (clone_node (final_name f s) (nested_name f s) (attr_map f (s_attrs s)))
+(* for an arbitrary renaming ri of subgraph inputs *)
+Definition inline_nodes_r (ri : vname -> vname) (f : func) (s : site) : list node :=
+  clone_nodes_with (clone_node ri (final_name f s) (nested_name f s) (attr_map f (s_attrs s)))
                    (final_name f s) (site_map f s) (f_body f).
 
-Definition inline_outs (f : func) (s : site) : list vname :=
+Definition inline_outs_r (f : func) (s : site) : list vname :=
   map (clone_out (map_after (final_name f s) (site_map f s) (f_body f))) (f_outs f).
+
+Definition inline_nodes (c : icfg) (f : func) (s : site) : list node :=
+  inline_nodes_r (sub_ren c f s) f (vsite c f s).
+Definition inline_outs (c : icfg) (f : func) (s : site) : list vname := inline_outs_r f (vsite c f s).
 
 (* names of the nodes, all nesting levels.  A node without name is not renamed by the inliner; it is then named
    by the onnx_ir graph (name authority) when call_inline appends it: not modelled, reported as "" and
@@ -243,20 +270,20 @@ Definition ok_nodes_with (okn : list vname -> vmap -> node -> bool) (r : vname -
    the definitions are pairwise distinct and are not the new name of another visible value (no capture),
    no definition reuses the name of a formal without value, subgraphs have no initializers and distinct
    input names *)
-Fixpoint ok_node (rh rn : vname -> vname) (om vis : list vname) (m : vmap) (n : node) {struct n} : bool :=
+Fixpoint ok_node (ri rh rn : vname -> vname) (om vis : list vname) (m : vmap) (n : node) {struct n} : bool :=
   let 'Node _ _ ins outs _ subs := n in
   forallb (fun x => mem x vis) (present ins)
   && nodupb (map rh outs)
   && forallb (img_free vis m) (map rh outs)
   && forallb (fun o => negb (mem o om)) outs
-  && forallb (fun kg => let '(_, g) := kg in ok_graph rn om vis m g) subs
-with ok_graph (rn : vname -> vname) (om vis : list vname) (m : vmap) (g : graph) {struct g} : bool :=
+  && forallb (fun kg => let '(_, g) := kg in ok_graph ri rn om vis m g) subs
+with ok_graph (ri rn : vname -> vname) (om vis : list vname) (m : vmap) (g : graph) {struct g} : bool :=
   let 'Graph ins inits nodes outs := g in
   match inits with [] => true | _ => false end
-  && nodupb ins
-  && forallb (img_free vis m) ins
+  && nodupb (map ri ins)
+  && forallb (img_free vis m) (map ri ins)
   && forallb (fun i => negb (mem i om)) ins
-  && ok_nodes_with (fun vis' m' n' => ok_node rn rn om vis' m' n') rn (ins ++ vis)%list (defmap same ins ++ m)%list nodes
+  && ok_nodes_with (fun vis' m' n' => ok_node ri rn rn om vis' m' n') rn (ins ++ vis)%list (defmap ri ins ++ m)%list nodes
   && forallb (fun x => mem x (defs_nodes nodes ++ ins ++ vis)%list && negb (mem x om)) outs.
 
 Definition outnames_ok (f : func) (s : site) : bool :=
@@ -265,19 +292,21 @@ Definition outnames_ok (f : func) (s : site) : bool :=
   | None => true
   end.
 
-Definition inline_okb (f : func) (s : site) : bool :=
+Definition inline_okb_r (ri : vname -> vname) (f : func) (s : site) : bool :=
   nodupb (f_ins f)
   && Nat.leb (List.length (s_actuals s)) (List.length (f_ins f))
   && outnames_ok f s
-  && ok_nodes_with (ok_node (final_name f s) (nested_name f s) (omitted (f_ins f) (s_actuals s)))
+  && ok_nodes_with (ok_node ri (final_name f s) (nested_name f s) (omitted (f_ins f) (s_actuals s)))
                    (final_name f s) (map fst (site_map f s)) (site_map f s) (f_body f)
   && forallb (fun o => mem o (defs_nodes (f_body f)) && negb (mem o (omitted (f_ins f) (s_actuals s)))) (f_outs f).
+Definition inline_okb (c : icfg) (f : func) (s : site) : bool :=
+  Nat.leb (List.length (s_actuals s)) (List.length (f_ins f)) && inline_okb_r (sub_ren c f s) f (vsite c f s).
 
 (* what the property additionally asks of the names: the new names are pairwise distinct (all nesting
    levels) and none of them is a name of the calling graph *)
-Definition inline_defs (f : func) (s : site) : list vname := flat_map all_defs_node (inline_nodes f s).
-Definition inline_fresh (f : func) (s : site) (caller_names : list vname) : bool :=
-  nodupb (inline_defs f s) && forallb (fun x => negb (mem x caller_names)) (inline_defs f s).
+Definition inline_defs (c : icfg) (f : func) (s : site) : list vname := flat_map all_defs_node (inline_nodes c f s).
+Definition inline_fresh (c : icfg) (f : func) (s : site) (caller_names : list vname) : bool :=
+  nodupb (inline_defs c f s) && forallb (fun x => negb (mem x caller_names)) (inline_defs c f s).
 
 (* ------------------------------------------------------------------ correspondence helpers *)
 Definition str_list_eqb := list_str_eqb.
@@ -327,10 +356,10 @@ Definition nodes_eqb (a b : list node) : bool :=
   list_eqb (fun x y => node_eqb (2 * (depth_node x + depth_node y) + 2) x y) a b.
 
 (* attributes sorted by name on both sides is the harness's business; here: exact comparison *)
-Definition inline_matches (f : func) (s : site) (inner_node_names : list string)
+Definition inline_matches (c : icfg) (f : func) (s : site) (inner_node_names : list string)
            (obs_nodes : list node) (obs_outs : list vname) (obs_node_names : list string) : bool :=
-  nodes_eqb (inline_nodes f s) obs_nodes
-  && list_str_eqb (inline_outs f s) obs_outs
+  nodes_eqb (inline_nodes c f s) obs_nodes
+  && list_str_eqb (inline_outs c f s) obs_outs
   && list_str_eqb (inline_node_names f s inner_node_names) obs_node_names.
 
 (* ------------------------------------------------------------------ a toy kernel and witnesses *)
@@ -391,9 +420,9 @@ Definition ex_site : site := Site ["enc"] "p" 7 [Some "tmp"; Some "v_Add_0"] [("
 Definition ex_site_default : site := Site [] "" 2 [Some "tmp"; Some "v_Add_0"] [] None.
 Definition ex_env : list (vname * Z) := [("tmp", 4%Z); ("v_Add_0", (-4)%Z); ("v_exf_node_2/tmp", 100%Z)].
 
-Definition toy_inline (fuel : nat) (f : func) (s : site) (e : list (vname * Z)) : option (list Z) :=
-  match toy_run (toy_eval fuel) e (inline_nodes f s) with
-  | Some e' => lookups e' (inline_outs f s)
+Definition toy_inline (c : icfg) (fuel : nat) (f : func) (s : site) (e : list (vname * Z)) : option (list Z) :=
+  match toy_run (toy_eval fuel) e (inline_nodes c f s) with
+  | Some e' => lookups e' (inline_outs c f s)
   | None => None
   end.
 
@@ -401,5 +430,5 @@ Definition toy_inline (fuel : nat) (f : func) (s : site) (e : list (vname * Z)) 
    checker of the theorem with the identity renaming), outputs defined by body nodes *)
 Definition func_wfb (f : func) : bool :=
   nodupb (f_ins f)
-  && ok_nodes_with (fun vis' m' n' => ok_node same same [] vis' m' n') same (f_ins f) (defmap same (f_ins f)) (f_body f)
+  && ok_nodes_with (fun vis' m' n' => ok_node same same same [] vis' m' n') same (f_ins f) (defmap same (f_ins f)) (f_body f)
   && forallb (fun o => mem o (defs_nodes (f_body f))) (f_outs f).
